@@ -8,7 +8,7 @@
    5. the registration race of two publishers (D6): all schedules for Swap+retire, witness schedule
       for Load/Store. *)
 From Coq Require Import ZArith List Bool Lia Arith.
-From V Require Import Bytes StrGo Registry BytesLemmas.
+From V Require Import Bytes StrGo Registry BytesLemmas CanonProofs.
 Import ListNotations.
 Open Scope Z_scope.
 
@@ -1940,3 +1940,173 @@ Example example_hls_ok :
       RUnit; RUnit; RUnit; RUnit; RHls true; RHls true; RHls false; RHls false;
       RUnit; RIdle false; RUnit; RIdle true; RGet None ].
 Proof. vm_compute. auto. Qed.
+
+(* ------------------------------------------------------------------ *)
+(* spellings: the registry depends on a path only through CanonicalPath *)
+
+(* o' is o with its path (if it has one) spelled differently *)
+Definition respelled (o o' : gop) : Prop :=
+  match o, o' with
+  | GNew p h, GNew p' h' => canonical_path p = canonical_path p' /\ h = h'
+  | GGet p, GGet p' => canonical_path p = canonical_path p'
+  | _, _ => o = o'
+  end.
+
+Lemma respelled_refl o : respelled o o.
+Proof. destruct o; simpl; auto. Qed.
+
+Lemma sstep_respelled sp o o' : respelled o o' -> sstep sp o = sstep sp o'.
+Proof.
+  destruct o, o'; simpl; intros H; try discriminate H; try (inversion H; subst; reflexivity);
+    try (destruct H as [H ->]); try rewrite H; reflexivity.
+Qed.
+
+Lemma gstep_respelled V g o o' : respelled o o' -> gstep V g o = gstep V g o'.
+Proof.
+  destruct o, o'; simpl; intros H; try discriminate H; try (inversion H; subst; reflexivity);
+    try (destruct H as [H ->]); try rewrite H; reflexivity.
+Qed.
+
+Lemma op_wf_respelled sp o o' : respelled o o' -> op_wf sp o = op_wf sp o'.
+Proof. destruct o, o'; simpl; intros H; try discriminate H; try (inversion H; subst; reflexivity); reflexivity. Qed.
+
+(* re-spelling every path of a history changes no answer, no state, and not its well-formedness —
+   of the specification and of the implementation model in every variant *)
+Theorem spelling_independent : forall ops ops',
+  Forall2 respelled ops ops' ->
+  (forall sp, srun sp ops = srun sp ops' /\ sexec sp ops = sexec sp ops' /\ hist_wf sp ops = hist_wf sp ops') /\
+  (forall V g, grun V g ops = grun V g ops').
+Proof.
+  intros ops ops' H. induction H as [|o o' ops ops' Ho Hf [IH1 IH2]].
+  - split; intros; simpl; auto.
+  - split.
+    + intros sp. rewrite !hist_wf_cons. simpl srun. simpl sexec.
+      rewrite (op_wf_respelled sp o o' Ho), (sstep_respelled sp o o' Ho).
+      destruct (sstep sp o') as [sp1 r]. simpl. destruct (IH1 sp1) as [A [B C]].
+      rewrite A, B, C. auto.
+    + intros V g. simpl. rewrite (gstep_respelled V g o o' Ho).
+      destruct (gstep V g o') as [g1 r]. rewrite (IH2 V g1). reflexivity.
+Qed.
+
+(* the canonical form is itself a spelling of the path (CanonicalPath is idempotent) *)
+Lemma canonical_is_spelling p h :
+  respelled (GNew p h) (GNew (canonical_path p) h) /\ respelled (GGet p) (GGet (canonical_path p)).
+Proof. simpl. rewrite canonical_path_idem. auto. Qed.
+
+(* every stream's path is in canonical form (so a lookup under a stream's own Path() is a lookup
+   under its key) *)
+Definition canon_ok (sp : sstate) : Prop :=
+  Forall (fun s => canonical_path (st_path s) = st_path s) (sp_streams sp).
+
+Lemma Forall_lset {A} (Q : A -> Prop) l i v :
+  Forall Q l -> ((i < length l)%nat -> Q v) -> Forall Q (lset l i v).
+Proof.
+  revert i; induction l as [|x l IH]; intros [|i] H Hv; simpl; auto.
+  - inversion H; subst. constructor; auto. apply Hv. simpl. lia.
+  - inversion H; subst. constructor; auto. apply IH; auto. intros L. apply Hv. simpl. lia.
+Qed.
+
+Lemma canon_ok_set sp i v :
+  canon_ok sp -> st_path v = st_path (sp_get sp i) -> canon_ok (sp_set sp i v).
+Proof.
+  intros H Hp. unfold canon_ok, sp_set; simpl. apply Forall_lset; auto.
+  intros L. rewrite Hp. unfold sp_get. unfold canon_ok in H.
+  rewrite Forall_forall in H. apply H. apply nth_In. exact L.
+Qed.
+
+Lemma canon_ok_kill sp i : canon_ok sp -> canon_ok (sp_kill sp i).
+Proof. intros H. rewrite sp_kill_eq. destruct (negb _); auto. apply canon_ok_set; auto. Qed.
+
+Lemma canon_ok_kill_list l : forall sp, canon_ok sp -> canon_ok (kill_list sp l).
+Proof. induction l as [|e l IH]; intros sp H; simpl; auto. apply IH, canon_ok_kill, H. Qed.
+
+Lemma canon_ok_step sp o : canon_ok sp -> canon_ok (fst (sstep sp o)).
+Proof.
+  intros Hc. destruct o as [p hls|i|i|i|p| | |i flv|i flv|i r| |d|i|i|i n]; simpl; auto.
+  - unfold canon_ok; simpl. apply Forall_app. split; [exact Hc|]. constructor; [|constructor].
+    simpl. apply canonical_path_idem.
+  - destruct (i <? length (sp_streams sp))%nat; simpl; [|exact Hc].
+    set (sp1 := {| sp_last := mstore (sp_last sp) (st_path (sp_get sp i)) i; sp_streams := sp_streams sp |}).
+    assert (Hc1 : canon_ok sp1) by exact Hc.
+    destruct (sp_resolve sp (st_path (sp_get sp i))) as [j|]; [|exact Hc1].
+    destruct (Nat.eqb i j); [exact Hc|].
+    destruct (consumers (sp_get sp j) <=? 0); simpl.
+    + apply canon_ok_kill; exact Hc1.
+    + apply canon_ok_set; auto.
+  - destruct (i <? length (sp_streams sp))%nat; simpl; [apply canon_ok_kill|]; exact Hc.
+  - destruct (i <? length (sp_streams sp))%nat; simpl; [apply canon_ok_kill|]; exact Hc.
+  - destruct (negb (i <? length (sp_streams sp))%nat || negb (st_live (sp_get sp i))); simpl; auto.
+    apply canon_ok_set; auto.
+  - destruct (negb (i <? length (sp_streams sp))%nat || negb (st_live (sp_get sp i))); simpl; auto.
+    destruct ((if flv then st_flv (sp_get sp i) else st_rtp (sp_get sp i)) <=? 0); simpl; auto.
+    apply canon_ok_set; auto.
+  - destruct (i <? length (sp_streams sp))%nat; simpl; auto.
+    destruct ((consumers (sp_get sp i) <=? 0) && negb (hls_recent (sp_get sp i) r)); simpl; auto.
+    apply canon_ok_kill; exact Hc.
+  - apply (canon_ok_kill_list _ sp Hc).
+  - unfold canon_ok; simpl. apply Forall_map. simpl. exact Hc.
+  - destruct (negb (i <? length (sp_streams sp))%nat || negb (hls_usable (sp_get sp i))); simpl; auto.
+    apply canon_ok_set; auto.
+  - destruct (negb (i <? length (sp_streams sp))%nat || negb (hls_usable (sp_get sp i))); simpl; auto.
+    apply canon_ok_set; auto.
+  - destruct (negb (i <? length (sp_streams sp))%nat || negb (hls_usable (sp_get sp i))); simpl; auto.
+    apply canon_ok_set; auto.
+Qed.
+
+Theorem paths_are_canonical : forall ops i,
+  let sp := sexec sinit ops in
+  (i < length (sp_streams sp))%nat ->
+  canonical_path (st_path (sp_get sp i)) = st_path (sp_get sp i) /\
+  snd (sstep sp (GGet (st_path (sp_get sp i)))) = RGet (sp_resolve sp (st_path (sp_get sp i))).
+Proof.
+  intros ops i sp Hi.
+  assert (H : forall ops sp, canon_ok sp -> canon_ok (sexec sp ops)).
+  { clear. induction ops as [|o ops IH]; intros sp Hc; simpl; auto. apply IH, canon_ok_step, Hc. }
+  assert (Hc : canon_ok sp) by (apply H; constructor).
+  assert (E : canonical_path (st_path (sp_get sp i)) = st_path (sp_get sp i)).
+  { unfold canon_ok in Hc. rewrite Forall_forall in Hc. apply Hc. apply nth_In. exact Hi. }
+  split; [exact E|]. simpl. rewrite E. reflexivity.
+Qed.
+
+(* two spellings of one canonical path are one key: a stream created under spelling p and registered
+   is what a lookup under any spelling p' of the same canonical path — the canonical form itself
+   included — returns *)
+Theorem spelling_same_key : forall sp p p' hls,
+  canonical_path p = canonical_path p' ->
+  let i := length (sp_streams sp) in
+  let sp1 := fst (sstep sp (GNew p hls)) in
+  let sp2 := fst (sstep sp1 (GRegist i)) in
+  snd (sstep sp2 (GGet p')) = RGet (Some i) /\ snd (sstep sp2 (GGet (canonical_path p))) = RGet (Some i).
+Proof.
+  intros sp p p' hls Hc i sp1 sp2.
+  assert (Hget : sp_get sp1 i = {| st_path := canonical_path p; st_live := true; st_rtp := 0; st_flv := 0;
+                                   st_retire := false; st_hls := hls; st_att_total := 0; st_det_total := 0;
+                                   st_hls_idle := 0; st_segs := 0 |}).
+  { unfold sp1, sp_get, i. simpl. rewrite nth_snoc, Nat.ltb_irrefl, Nat.eqb_refl. reflexivity. }
+  assert (Hi : (i < length (sp_streams sp1))%nat).
+  { unfold sp1, i. simpl. rewrite app_length. simpl. lia. }
+  assert (Hl : st_live (sp_get sp1 i) = true) by (rewrite Hget; reflexivity).
+  pose proof (regist_then_resolves sp1 i Hi Hl) as Hr. fold sp2 in Hr. rewrite Hget in Hr. simpl in Hr.
+  split; simpl.
+  - rewrite <- Hc. rewrite Hr. reflexivity.
+  - rewrite canonical_path_idem, Hr. reflexivity.
+Qed.
+
+(* two spellings of one history over the key "/a/b/" (trailing slash kept): "/a/b/", " /A//b/./",
+   "a/b/x/../" against "/A/B//", "/a/b/.//", "\t/a/./b/" *)
+Definition example_spelled_1 : list gop :=
+  [ GNew [47;97;47;98;47] true; GRegist 0; GNew [32;47;65;47;47;98;47;46;47] false; GRegist 1;
+    GGet [97;47;98;47;120;47;46;46;47]; GCount ].
+Definition example_spelled_2 : list gop :=
+  [ GNew [47;65;47;66;47;47] true; GRegist 0; GNew [47;97;47;98;47;46;47;47] false; GRegist 1;
+    GGet [9;47;97;47;46;47;98;47]; GCount ].
+
+Example example_spelled_ok :
+  Forall2 respelled example_spelled_1 example_spelled_2 /\
+  hist_wf sinit example_spelled_1 = true /\
+  srun sinit example_spelled_1 = [RUnit; RUnit; RUnit; RUnit; RGet (Some 1%nat); RCount 1 0] /\
+  srun sinit example_spelled_2 = [RUnit; RUnit; RUnit; RUnit; RGet (Some 1%nat); RCount 1 0].
+Proof.
+  split; [|vm_compute; auto].
+  repeat constructor; vm_compute; auto.
+Qed.
